@@ -223,6 +223,19 @@ structure Row where
   /-- every in-body CSRF check precedes the first statement that touches persistent state -/
   csrfFirst : Bool
   kind : Kind
+  /-- the method (or a helper it reaches) calls `Token.prune_database`, the only code that
+  deletes CSRF replay records -/
+  prunes : Bool := false
+  deriving Repr
+
+/-- one call of `prune_database` found in the source tree -/
+structure PruneSite where
+  /-- file:function -/
+  site : String
+  /-- value of the `all_csrf` argument -/
+  allCsrf : Bool
+  /-- the call is in `create_app`, i.e. runs once per server start -/
+  startup : Bool
   deriving Repr
 
 /-- execution order: `as_view` wraps the dispatcher with the class decorators in list
